@@ -743,6 +743,9 @@ def run_property(ctx, module, profile, n_quick, n_thorough, monitors, keep, leng
     samples = []
     distinct = set()
     for sc, (impl, model) in zip(scripts, res):
+        if impl == ["<no output>"]:
+            stats["incomplete"] = stats.get("incomplete", 0) + 1      # beyond the time budget: not run, not judged
+            continue
         stats["scripts"] += 1
         stats["ops"] += len(sc)
         for op in sc:
@@ -772,6 +775,8 @@ def run_property(ctx, module, profile, n_quick, n_thorough, monitors, keep, leng
         if hits:
             stats["monitor_hits"] += 1
             sig, what = hits[0]
+            if "%s:%s" % (prop, sig) in [x for x, _, _ in v.violations]:
+                continue        # this kind of failure has its (shrunk) replay already
             # shrink while the same monitor signature fires
             is_drain = sig.startswith("drain:")
             def fails(cand):
@@ -793,11 +798,14 @@ def run_property(ctx, module, profile, n_quick, n_thorough, monitors, keep, leng
         if sess.unsupported(model):
             stats["unsupported"] += 1
             continue
+        if impl == ["<no output>"] or model == ["<no output>"]:
+            stats["incomplete"] = stats.get("incomplete", 0) + 1      # beyond the time budget: not judged
+            continue
         pi, pm = project(impl, keep), project(model, keep)
         d = C.first_diff(pi, pm)
         if d:
             stats["diffs"] += 1
-            if len(v.broken) < 3:
+            if len(v.broken) < 2:
                 def fails2(cand):
                     i2, m2 = sess.run_session(ctx, [cand], shards=1)[0]
                     return (not sess.unsupported(m2)) and C.first_diff(project(i2, keep), project(m2, keep)) is not None
